@@ -403,6 +403,7 @@ func skipString(src string, pos int) (ret int, ep int) {
 	sp += 1
 
 	ep = -1
+	closed := false
 	for sp < se {
 		c := *(*byte)(unsafe.Pointer(sp))
 		if c == '\\' {
@@ -414,11 +415,13 @@ func skipString(src string, pos int) (ret int, ep int) {
 		}
 		sp += 1
 		if c == '"' {
+			closed = true
 			break
 		}
 	}
 
-	if sp > se {
+	// the input ended before the closing quote
+	if !closed {
 		return -int(types.ERR_EOF), -1
 	}
 
